@@ -26,13 +26,13 @@ def build_demo(tree, demo, out, fi=False):
         rc, o = sh('gcc %s -Dmalloc=my_malloc -Dcalloc=my_calloc -Dfree=my_free -c src/ksi/base.c -o %s.base.o' % (flags, out), cwd=tree)
         if rc != 0:
             return rc, o
-        r = sh('gcc %s %s %s.base.o %s -lcrypto -lcurl -lpthread -o %s' % (flags, srcs, out, demo, out), cwd=tree)
+        r = sh('gcc %s %s %s.base.o %s -lcrypto -lcurl -lpthread -ldl -o %s' % (flags, srcs, out, demo, out), cwd=tree)
         try:
             os.unlink(out + '.base.o')
         except OSError:
             pass
         return r
-    return sh('gcc -g -O1 -fsanitize=address -DHAVE_CONFIG_H -Isrc -Isrc/ksi -w %s %s -lcrypto -lcurl -lpthread -o %s' % (srcs, demo, out), cwd=tree)
+    return sh('gcc -g -O1 -fsanitize=address -DHAVE_CONFIG_H -Isrc -Isrc/ksi -w %s %s -lcrypto -lcurl -lpthread -ldl -o %s' % (srcs, demo, out), cwd=tree)
 
 
 def audit(name, tier='quick'):
